@@ -786,6 +786,11 @@ class Interp(object):
                     so = st.objs.get(src.obj)
                     if so is not None and so.version == tag[2]:
                         return self.load(st, inst, sp, ty, nbytes)
+                    if len(tag) > 3 and tag[3] and not (off - roff).t and int_bits(ty) is not None:
+                        # the source changed since, but this byte of it was entry content when it was copied
+                        rel = tag[3][2] + (off - roff).c
+                        if not any(c0 < rel + nbytes and rel < c0 + cs for (c0, cs) in tag[3][3]):
+                            return self.lazy_value(st, tag[3][1], rel, ty, nbytes)
                 return self.fresh_for_type(st, ty, 'cpy')
             # may overlap an unknown write
             return self.fresh_for_type(st, ty, 'ld')
@@ -2640,7 +2645,22 @@ class Interp(object):
                         if before or after:
                             keep.append((co, cl, ct))
                     carry_vals = keep
-        r = self.region_write(st, inst, d, nbytes, ('copy', s, sver), 'copy')
+        # bytes of the source that nothing is known about yet: when the source is an object of the scene whose range was never
+        # written (its contents are what the operation found on entry) and the copy is a small one at constant offsets, the tag
+        # remembers that - a later read through the copy then names the entry value of the source byte, even if the source has
+        # been overwritten in the meantime (snapshot semantics for the part that carries no cell)
+        entry_src = None
+        if so is not None and (so.lazy or so.kind in ('param', 'ext', 'global')) and not s.off.t and not nbytes.t and nbytes.c <= 256 and \
+                not so.attrs.get('cstr_len') and not so.attrs.get('data'):
+            pristine = True
+            for (roff, rlen, tag, ver) in so.regions:
+                rl = rlen if isinstance(rlen, Lin) else Lin.const(rlen)
+                if not (st.is_ge0(roff - s.off - nbytes) is True or st.is_ge0(s.off - roff - rl) is True):
+                    pristine = False
+                    break
+            if pristine:
+                entry_src = ('entry', s.obj, s.off.c, tuple(sorted((coff, csz) for coff, (csz, cv) in so.cells.items())))
+        r = self.region_write(st, inst, d, nbytes, ('copy', s, sver) + ((entry_src,) if entry_src else ()), 'copy')
         if isinstance(d, PtrV) and d.obj in st.objs and (carry_cells or carry_vals):
             do = st.objs[d.obj]
             for (rel, csz, cv) in carry_cells:
